@@ -96,6 +96,8 @@ func init() {
 			"(W4) the ordering's context and cancel fields hold the two results of context.WithCancel applied to the constructor's context parameter; the send is a select case next to that context's Done, whose case leaves the DFS with a non-nil result; Next receives in a select with Done (or relies on the producer's deferred close) and returns false unless the received value was found valid; Close cancels on every path to the wait and waits on every path, where the completion carrier is a sync.WaitGroup (Add(1) / Done / Wait) or a channel the producer closes and Close receives from (make / close / plain receive): the carrier is armed before the single go statement, the producer defers close(out) and the completion signal before its first way out, the signal is the producer's last action (registered before the close of the output channel), nobody else signals, and the output channel is closed nowhere else; " +
 			"(W5) the recursion sits in a loop over the complete history nested around a loop over the complete Members of each version (range or counting loops, left only by exhaustion or return), walks the member's Ref, is reached only through the is-a-relation edge of a test of the member's Type against osm.TypeRelation, and — guard whitelist — no other condition between the start of a version's iteration and the recursive call decides whether the call is reached, except the member-type test and the already-visited test on the member (which may only skip the member, not end the walk) and the cycle cut; " +
 			"(W6) every way out of the DFS before the emission is explained by one of: already visited (nil), history not found, non-nil error, cycle cut (nil), cancellation, Done case of the emission select; an unexplained way out with a nil result (a depth or size cut-off, a member reported as \"cut\" for another reason) is a violation: the caller takes the id for done and emits the parent first. " +
+			"(W7) every way out of the DFS that can follow a recursive call and lets the iteration go on (nil result; not a cancellation) passes a store of the id into the set whose membership test on entry guards all walking (memo: no relation is walked twice) and a test of the ordering's context made by the walk itself (cancel-latency). On the pinned tree the cycle-cut `return nil` does neither — relations on a cycle are re-walked from every parent, exponentially on ladders of cycles — which is recorded as a known finding (memo@dfs cycle-cut, cancel-latency@dfs cycle-cut); any other such way out fails. " +
+			"(W8) never an id without history: the DFS either tests the lookup result itself or relies on the datasource contract (nil error implies a non-empty history), and the root package's own datasource type(s) implementing the ordering's datasource interface return a nil error only on paths that tested the looked-up value non-nil / non-empty (key presence alone is not evidence); user datasources are trusted. " +
 			"Together these give, for every graph: termination, at most one emission per id, no emission without a found history, every requested id with a history reaches the emission unless the iteration was stopped, and children-first order on acyclic graphs. " +
 			"NOT decided: behaviour of the user's datasource (determinism of RelationHistory, honouring the context while blocked, the NotFound classification), id 0 (used by Next as the closed-channel sentinel), running time on cyclic graphs (cut activations are not memoised), data races on err/CompletedIndex, wall-clock promptness. Shapes outside the explored idioms (function values, a DFS without a path parameter, member ids collected into a slice first, reverse or stepped index loops, defer in Close) are reported as undecided rather than accepted.",
 		Assumptions: []string{"go/types, go/cfg (x/tools v0.29.0)", "RelationHistory returns the same history for the same id during one iteration", "the datasource returns when its context is cancelled", "0 is not a valid relation id", "Go channel/select/WaitGroup/context semantics", "heap values read into a term (struct fields, map and slice elements other than the visited set) do not change between the two program points at which equal terms are compared"},
@@ -110,6 +112,8 @@ func init() {
 			{ID: "W4", Floor: 9, Doc: "no deadlock on stop: own cancellable context, select with Done on send and receive, cancel before Wait, deferred close/Done, Add(1) before go", Run: c14W4},
 			{ID: "W5", Floor: 5, Doc: "all versions' members are walked, only relation members are followed, and nothing but the member-type test / cycle cut / visited test keeps a relation member from being walked (guard whitelist)", Run: c14W5},
 			{ID: "W6", Floor: 5, Doc: "ways out of the DFS before the emission are exactly visited / not found / error / cycle cut / cancellation", Run: c14W6},
+			{ID: "W7", Floor: 2, Doc: "every walk is remembered and looks at the context: each way out that can follow a recursive call and lets the iteration go on passes a store of the id into the set tested on entry (no exponential re-walks of relations on cycles) and a test of the ordering's context made by the walk itself", Run: c14W7},
+			{ID: "W8", Floor: 2, Doc: "no emission without a history: the DFS guards the emission with its own test of the lookup result or relies on the datasource contract, and the module's own in-memory datasource returns a nil error only with a history it has tested to be non-nil / non-empty", Run: c14W8},
 		},
 		Benign: c14AllBenign(),
 		Mutants: append([]core.Mutant{
